@@ -30,6 +30,12 @@ CLAIMED = {
    text="Proof: Num/Model.v mirrors value::to_int32/to_uint32 and value::layout_number_digits after fixes a62973b and d4b615a. Proved for every integer t: to_int32 t = ES ToInt32, to_uint32 t = t mod 2^32, range (c15_to_int32_wraps, c15_to_uint32_wraps, c15_to_int32_range); for every non-empty digit list and exponent the chosen notation denotes exactly digits*10^e and is the plain/decimal/0.000ddd/exponent form exactly in the ES ranges (c15_layout_preserves_value, c15_layout_notation); the pinned saturating cast is refuted by witness. Tie on every run: number_to_string, to_int32, to_uint32 on ~21000 structured and random bit patterns against the model evaluated inside Coq; the same values in-program (String, toString, | >>> ~ << >> & ^) against node; toFixed/toPrecision/toExponential/toString(radix) against node (reference-only) with deviations classified into known-finding cells by exact rational arithmetic. Partial: shortest-digit generation is Rust's {:e} (oracle validated against node; exact ties between two shortest candidates are accepted either way); string_to_number and the formatting methods are not modelled.",
    note="Trusted: Coq kernel + vm_compute; Rust core float formatting ({:e}) as digit oracle, fmod/trunc exactness; node 20; Python Fraction arithmetic for cell classification; Rust harness.",
    design_ref="DESIGN.md §5 C15"),
+ "C16": dict(
+   engine="Json",
+   technique="Coq proof (document round trip by structural induction, member access reaches every member, key canonicalisation round trip, serialisation total on every value graph via a path-set invariant) + correspondence of tsrun's five JSON paths against the documents and the model",
+   text="Proof: Json/Model.v mirrors json_to_js_value_with_guard (with canonical property keys), js_value_to_json_with_visited on trees and on heaps with identity (visited = objects on the current path). Proved for all documents without duplicate keys: to_json (to_js d) = d (c16_host_roundtrip); every member is reachable by script member access incl. integer-like keys (c16_script_sees_document); key_string (canon s) = s for every string (c16_key_roundtrip); for every heap and value, cyclic or not, serialisation terminates within heap-size fuel, so cycles yield the error and never a loop (c16_stringify_total); the pinned keying is refuted by witness. Tie on every run: generated documents (escapes, non-BMP, integer-like keys, boundary numbers, deep/wide extremes) through create_from_json -> script member access -> js_value_to_json, JSON.parse/JSON.stringify with nine indent arguments, api::get_property, under three GC thresholds; random value graphs with sharing and cycles against the specification, node-free (Python json as text oracle); the model is evaluated on the same documents/graphs inside Coq.",
+   note="Trusted: Coq kernel + vm_compute; serde_json text<->tree (oracle); Python json module for reading results; Rust harness. Not modelled: number text formatting inside JSON (C15), toJSON/getters/replacer, top-level undefined.",
+   design_ref="DESIGN.md §5 C16"),
 }
 
 NOT_YET = "not claimed yet in this revision: its model/theorem pair is not built; see DESIGN.md §5 and §8 (build order)"
